@@ -170,6 +170,18 @@ class Gen(object):
 
     # -- statements
     def stmt(self, fi, xj):
+        s = self._stmt(fi, xj)
+        if s["op"] in ("put", "set", "inc", "copy", "do"):
+            # the action's context: mostly the verb's own, sometimes another one (drawn from a generator of its own so
+            # that the programs stay what they were): every context list of a frame is resolved -- and cloned -- alike
+            st = self.rng.getstate()[1]
+            import random as _random
+            r2 = _random.Random(repr((st[0], st[1], st[-1], fi, xj)))
+            if r2.random() < 0.35:
+                s["ctx"] = r2.choice(["recur", "exit", "rexit", "renter", "precur", "rexit", "enter"])
+        return s
+
+    def _stmt(self, fi, xj):
         rng = self.rng
         if rng.random() < 0.12:
             # implicit framer-relative references: timeout / repeat / elapsed / recurred stand for framer.me.state.<clock>
@@ -443,6 +455,14 @@ def marker(r):
 
 
 def render_stmt(s, i, naming):
+    c = s.get("ctx")
+    if c and s["op"] != "do":        # a context line before the verb, back to the verbs' own contexts after it
+        return "%s\n      %s\n      native" % (c, _render_stmt(s, i, naming))
+    t = _render_stmt(s, i, naming)
+    return t.replace(" at enter", " at " + c, 1) if c else t
+
+
+def _render_stmt(s, i, naming):
     op = s["op"]
     R = lambda r: render_ref(r, naming)
     if op == "put":
